@@ -47,8 +47,13 @@ theorem persistPending_frame (s : Sys) :
   · simp
 
 theorem handleCmd_frame (s : Sys) (c : IOCmd) :
-    (s.handleCmd c).buf = s.buf ∧ (s.handleCmd c).queue = s.queue ∧ (s.handleCmd c).alive = s.alive := by
-  cases c <;> simp [handleCmd, stReplace, stPurge, stReset]
+    SameBuf s.buf (s.handleCmd c).buf ∧ (s.handleCmd c).queue = s.queue ∧ (s.handleCmd c).alive = s.alive := by
+  cases c with
+  | replace d es => exact ⟨⟨min s.buf.durable (d - 1), s.buf.nextId, by simp [handleCmd, stReplace]⟩, by simp [handleCmd, stReplace], by simp [handleCmd, stReplace]⟩
+  | purge ci ct => exact ⟨SameBuf.of_eq (by simp [handleCmd, stPurge]), by simp [handleCmd, stPurge], by simp [handleCmd, stPurge]⟩
+  | reset => exact ⟨SameBuf.of_eq (by simp [handleCmd, stReset]), by simp [handleCmd, stReset], by simp [handleCmd, stReset]⟩
+  | flush => exact ⟨SameBuf.refl _, rfl, rfl⟩
+  | shutdown => exact ⟨SameBuf.refl _, rfl, rfl⟩
 
 theorem fsyncAdvance_frame (s : Sys) :
     SameBuf s.buf s.fsyncAdvance.buf ∧ s.fsyncAdvance.queue = s.queue ∧ s.fsyncAdvance.alive = s.alive := by
@@ -58,10 +63,10 @@ theorem fsyncAdvance_frame (s : Sys) :
   · exact ⟨SameBuf.refl _, rfl, rfl⟩
 
 theorem drain_frame (s : Sys) (cs : List IOCmd) (fl : Bool) (h : ∀ c ∈ cs, c ≠ IOCmd.shutdown) :
-    (drain s cs fl).1.buf = s.buf ∧ (drain s cs fl).1.queue = [] ∧ (drain s cs fl).1.alive = s.alive ∧
+    SameBuf s.buf (drain s cs fl).1.buf ∧ (drain s cs fl).1.queue = [] ∧ (drain s cs fl).1.alive = s.alive ∧
     (drain s cs fl).2.1 = false := by
   induction cs generalizing s fl with
-  | nil => simp [drain]
+  | nil => exact ⟨SameBuf.refl _, rfl, rfl, rfl⟩
   | cons c cs ih =>
     have hc := h c (by simp)
     have hrest : ∀ c ∈ cs, c ≠ IOCmd.shutdown := fun x hx => h x (List.mem_cons_of_mem _ hx)
@@ -72,17 +77,17 @@ theorem drain_frame (s : Sys) (cs : List IOCmd) (fl : Bool) (h : ∀ c ∈ cs, c
       have := ih (s.handleCmd (.replace d es)) fl hrest
       have hf := handleCmd_frame s (.replace d es)
       simp only [drain]
-      exact ⟨by rw [this.1, hf.1], this.2.1, by rw [this.2.2.1, hf.2.2], this.2.2.2⟩
+      exact ⟨hf.1.trans this.1, this.2.1, by rw [this.2.2.1, hf.2.2], this.2.2.2⟩
     | purge ci ct =>
       have := ih (s.handleCmd (.purge ci ct)) fl hrest
       have hf := handleCmd_frame s (.purge ci ct)
       simp only [drain]
-      exact ⟨by rw [this.1, hf.1], this.2.1, by rw [this.2.2.1, hf.2.2], this.2.2.2⟩
+      exact ⟨hf.1.trans this.1, this.2.1, by rw [this.2.2.1, hf.2.2], this.2.2.2⟩
     | reset =>
       have := ih (s.handleCmd .reset) fl hrest
       have hf := handleCmd_frame s .reset
       simp only [drain]
-      exact ⟨by rw [this.1, hf.1], this.2.1, by rw [this.2.2.1, hf.2.2], this.2.2.2⟩
+      exact ⟨hf.1.trans this.1, this.2.1, by rw [this.2.2.1, hf.2.2], this.2.2.2⟩
 
 theorem shutdownTail_false (s : Sys) : s.shutdownTail false = s := by simp [shutdownTail]
 
@@ -128,7 +133,10 @@ theorem ioArm_frame (s : Sys) (a : Arm) (hq : Quiet s) : SameBuf s.buf (s.ioArm 
     have h4 := fsyncAdvance_frame s3
     rw [shutdownTail_false]
     refine ⟨?_, ?_, ?_⟩
-    · have : SameBuf s.buf s3.buf := by rw [h3.1, hb2, h1.1]; exact SameBuf.refl _
+    · have : SameBuf s.buf s3.buf := by
+        rw [h3.1]
+        have h0 : SameBuf s.buf ({ s with notify := false }).persistPending.buf := by rw [h1.1]; exact SameBuf.refl _
+        exact h0.trans hb2
       exact this.trans h4.1
     · rw [h4.2.2, h3.2.2, ha2, h1.2.2]; exact halive
     · rw [h4.2.1, h3.2.1, hq2]; simp
@@ -154,22 +162,24 @@ theorem ioArm_frame (s : Sys) (a : Arm) (hq : Quiet s) : SameBuf s.buf (s.ioArm 
         have h4 := fsyncAdvance_frame s2
         rw [shutdownTail_false]
         refine ⟨?_, ?_, ?_⟩
-        · have : SameBuf s.buf s2.buf := by rw [hb2, h1.1]; exact SameBuf.refl _
+        · have : SameBuf s.buf s2.buf := by
+            have h0 : SameBuf s.buf ({ s with queue := rest }).persistPending.buf := by rw [h1.1]; exact SameBuf.refl _
+            exact h0.trans hb2
           exact this.trans h4.1
         · rw [h4.2.2, ha2, h1.2.2]; exact halive
         · rw [h4.2.1, hq2]; simp
       | replace d es =>
         simp only
         have hf := handleCmd_frame { s with queue := rest } (.replace d es)
-        exact ⟨by rw [hf.1]; exact SameBuf.refl _, by rw [hf.2.2]; exact halive, by rw [hf.2.1]; exact hrest⟩
+        exact ⟨hf.1, by rw [hf.2.2]; exact halive, by rw [hf.2.1]; exact hrest⟩
       | purge ci ct =>
         simp only
         have hf := handleCmd_frame { s with queue := rest } (.purge ci ct)
-        exact ⟨by rw [hf.1]; exact SameBuf.refl _, by rw [hf.2.2]; exact halive, by rw [hf.2.1]; exact hrest⟩
+        exact ⟨hf.1, by rw [hf.2.2]; exact halive, by rw [hf.2.1]; exact hrest⟩
       | reset =>
         simp only
         have hf := handleCmd_frame { s with queue := rest } .reset
-        exact ⟨by rw [hf.1]; exact SameBuf.refl _, by rw [hf.2.2]; exact halive, by rw [hf.2.1]; exact hrest⟩
+        exact ⟨hf.1, by rw [hf.2.2]; exact halive, by rw [hf.2.1]; exact hrest⟩
 
 theorem ioRunN_frame (n : Nat) (s : Sys) (prio : List Arm) (hq : Quiet s) :
     SameBuf s.buf (ioRunN n s prio).buf ∧ Quiet (ioRunN n s prio) := by
